@@ -462,6 +462,10 @@ func C11(p *Prog, r *Run) {
 		}
 	})
 
+	r.Rule("C11.6", "graph lookups: edgeBetween compares every node with both ids independently (self-loop queries) and scans until both are found; From/To list every control node that has the id at the far end of one of its links", func() {
+		r.c11GraphLookups()
+	})
+
 	r.Rule("C11.5", "no typed-nil interface results: a pointer is converted to a gonum interface result only where it is known to be non-nil", func() {
 		n := 0
 		check := func(prog *Prog, fn *ssa.Function) (bad []string) {
